@@ -66,7 +66,8 @@ def evaluate(mod, ops, have_driver):
         rows.append({"stream": stream, "op": op, "impl": safe_impl(mod, op)})
     spec_ops = [getattr(mod, "spec_op", lambda o: None)(r["op"]) for r in rows]
     if have_driver:
-        lines = [r["op"] for r in rows] + [s for s in spec_ops if s is not None]
+        lean_op = getattr(mod, "lean_op", lambda o: o)
+        lines = [lean_op(r["op"]) for r in rows] + [s for s in spec_ops if s is not None]
         out = common.run_driver(lines)
         k = len(rows)
         for i, r in enumerate(rows):
